@@ -2,7 +2,7 @@
 import numpy as np
 from harness import wavecheck as wk, waveoracle as wo, wavesim_corr as wc
 
-THEOREMS = ['C04_emit_is_sum', 'C04_shift_equivariant', 'C04_scale_equivariant', 'C04_mono_polarity_free']
+THEOREMS = ['C04_emit_is_sum', 'C04_shift_equivariant', 'C04_scale_equivariant', 'C04_mono_polarity_free', 'C04_sta_window']
 
 
 def finite_mask(m):
